@@ -426,10 +426,15 @@ PROPS["C18"] = {
     "level": "exploration",
     "rule": ("Library-valid Specs from the shared generator (all optional members, <= 3 devices, numeric extremes of every integer field, hook "
              "timeouts in {0, 1, 30, 2^31-1, 2^32-1}, hostile strings in 3 of 4 cases). Oracle: precondition - with no validator installed "
-             "WriteSpec/ReadSpec accept the Spec (otherwise the run is undecided: generator bug); then schema.BuiltinSchema().Validate(spec) "
+             "WriteSpec accepts the Spec (otherwise the run is undecided: generator bug) - and the files it wrote must then load again; "
+             "then schema.BuiltinSchema().Validate(spec) "
              "must be nil, and with cdi.SetSpecValidator(BuiltinSchema()) installed WriteSpec to .json and .yaml, ReadSpec of both, "
              "ValidateFile and ValidateData of both written files must succeed, the files read back equal, and a cache over them reports "
-             "no load error. Non-trivial iff the Spec has annotations, an integer extreme, or a string outside [A-Za-z0-9_./=-]*; "
+             "no load error (read-back equality is judged on the Spec as a file can hold it: bytes that are not valid UTF-8 become U+FFFD). "
+             "big-annotations unit: one annotation at spec or device level whose value is a repeated unit - 'a', NUL, a two-byte rune, "
+             "an invalid byte, a truncated three-byte rune - with unit counts that put the total one below / at / one and two above the "
+             "256 KiB limit, counted as given and counted as written (an invalid byte is written as three bytes); whatever WriteSpec "
+             "accepts must satisfy every clause, what it refuses is counted. Non-trivial iff the Spec has annotations, an integer extreme, or a string outside [A-Za-z0-9_./=-]*; "
              "distinct = distinct Specs."),
     "assumptions": ["'library-valid' is what the shared generator emits (checked per case by the precondition)", "the Spec validator is process-global: one case at a time per process, reset after each case"],
     "manifest": {
@@ -438,10 +443,11 @@ PROPS["C18"] = {
         "technique": "property-based testing: implication oracle (library accepts => schema accepts) over generated Specs, round trip with the validator installed",
     },
     "health": {"quick": {"has:hooks": 500, "has:timeout": 200, "has:intelRdt": 200, "has:fileMode": 200, "spec-annotations": 300, "device-annotations": 300,
-                         "int:9223372036854775807": 100, "int:4294967295": 300, "str:line-break": 300}},
+                         "int:9223372036854775807": 100, "int:4294967295": 300, "str:line-break": 300, "accepted-by-the-library": 30, "refused-by-the-library": 30}},
     "units": [
         {"name": "regress", "mode": "plain", "run": "TestC18Regress"},
         {"name": "rapid", "mode": "rapid", "run": "TestC18Rapid", "checks": {"quick": 16000, "thorough": 320000}},
+        {"name": "big-annotations", "mode": "plain", "run": "TestC18BigAnnotations"},
     ],
 }
 
